@@ -129,7 +129,7 @@ theorem literal_eq_variable (n : Nat) (S : Schema) (o : Oracle) (hS : DefaultsCo
     (node : Value) (j v : PyVal) (vars : Vars)
     (hnat : NatLit S NaturalLeaf ad.type node) (hnn : node ≠ .null) (hj : jsonOf o node = some j)
     (hlit : coerceArgument n S o ad l (some ⟨name, node, vl⟩) vars = .value v) :
-    coerceVariable n S o ⟨"x", ad.type, none, l⟩ [("x", j)] = .value v ∧
+    coerceVariable n S o ⟨"x", ad.type, none, l, ⟨0, 0⟩⟩ [("x", j)] = .value v ∧
     coerceArgument n S o ad l (some ⟨name, .var "x", vl⟩) [("x", v)] = .value v := by
   have hnv := jsonOf_not_var o node j hj
   have hvf := natLit_varFree naturalLeaf_varFree node ad.type hnat
